@@ -18,6 +18,8 @@ def main():
         if not os.path.exists(f"{d}/patch.diff"): continue
         meta = json.load(open(f"{d}/meta.json"))
         props = meta.get("confirmed", {}).get("properties") or [meta.get("property")]
+        if meta.get("superseded"):
+            print(f"{i}: SUPERSEDED ({meta['superseded'][:100]})"); continue
         a = sh(f"git apply {d}/patch.diff", cwd=REPO)
         if a.returncode != 0:
             print(f"{i}: STALE (patch no longer applies: {a.stdout.strip()[:120]})"); continue
